@@ -156,7 +156,9 @@ def run(rep, db, tier, props):
         rep.nontrivial += o.get('nontrivial', 0)
         for v in o['viol']:
             if v['prop'] not in props: continue
+            if ':state-invariant-broken' in v['key']:
+                rep.add(F.Obligation('inductiveness of the assumed pre-state invariant (' + v['key'] + ')', 'inconclusive', v['text'] + ' | witness: ' + v['witness'])); continue
             rep.violation(F.Violation(rep.prop, v['key'], v['text'] + ' | no executable replay for two-message histories: solver witness only | witness: ' + v['witness'], None, None))
-        rep.add(F.Obligation(name, 'violated' if [v for v in o['viol'] if v['prop'] in props] else 'discharged', paths=o.get('paths'), wall_s=o.get('wall_s')))
+        rep.add(F.Obligation(name, 'violated' if [v for v in o['viol'] if v['prop'] in props and ':state-invariant-broken' not in v['key']] else 'discharged', paths=o.get('paths'), wall_s=o.get('wall_s')))
         if len(rep.samples) < 10: rep.samples.append(f'sequence {o["pair"]}: {o.get("paths")} complete paths')
     return outs
